@@ -93,6 +93,17 @@ type Session struct {
 // gateway sends; mqHandler (in the broker peer's goroutine) for every MQTT
 // packet the gateway sends. Either may be nil.
 func (w *World) NewSession(snHandler func(s *Session, p *snref.Pkt, raw []byte), mqHandler func(s *Session, p *mqttref.Pkt)) *Session {
+	return w.newSession(snHandler, mqHandler, false)
+}
+
+// NewSessionForClient is NewSession without the scripted client's reader:
+// the client end of the MQTT-SN link (s.SN.A) is meant to be handed to a real
+// client library instance.
+func (w *World) NewSessionForClient(mqHandler func(s *Session, p *mqttref.Pkt)) *Session {
+	return w.newSession(nil, mqHandler, true)
+}
+
+func (w *World) newSession(snHandler func(s *Session, p *snref.Pkt, raw []byte), mqHandler func(s *Session, p *mqttref.Pkt), externalClient bool) *Session {
 	w.mu.Lock()
 	id := len(w.sess)
 	s := &Session{W: w, ID: id, Done: make(chan struct{}), counts: map[string]int{}}
@@ -157,22 +168,24 @@ func (w *World) NewSession(snHandler func(s *Session, p *snref.Pkt, raw []byte),
 	})
 
 	// client-side reader
-	w.wg.Add(1)
-	go func() {
-		defer w.wg.Done()
-		buf := make([]byte, 70000)
-		for {
-			n, err := s.SN.A.Read(buf)
-			if err != nil {
-				return
+	if !externalClient {
+		w.wg.Add(1)
+		go func() {
+			defer w.wg.Done()
+			buf := make([]byte, 70000)
+			for {
+				n, err := s.SN.A.Read(buf)
+				if err != nil {
+					return
+				}
+				if snHandler != nil {
+					raw := append([]byte(nil), buf[:n]...)
+					p, _ := snref.ParseLoose(raw)
+					snHandler(s, p, raw)
+				}
 			}
-			if snHandler != nil {
-				raw := append([]byte(nil), buf[:n]...)
-				p, _ := snref.ParseLoose(raw)
-				snHandler(s, p, raw)
-			}
-		}
-	}()
+		}()
+	}
 	// broker-side reader
 	w.wg.Add(1)
 	go func() {
